@@ -207,10 +207,16 @@ func (b *Buffer) ServeHTTP(w http.ResponseWriter, req *http.Request) {
 			reader = rdr
 		}
 
+		// a handler that never chose a status answers 200, as with net/http's own writer
+		code := bw.code
+		if code == 0 {
+			code = http.StatusOK
+		}
+
 		if (b.retryPredicate == nil || attempt > DefaultMaxRetryAttempts) ||
-			!b.retryPredicate(&context{r: req, attempt: attempt, responseCode: bw.code}) {
+			!b.retryPredicate(&context{r: req, attempt: attempt, responseCode: code}) {
 			utils.CopyHeaders(w.Header(), bw.Header())
-			w.WriteHeader(bw.code)
+			w.WriteHeader(code)
 			if reader != nil {
 				_, _ = io.Copy(w, reader)
 			}
